@@ -221,6 +221,10 @@ def CRes.ofGo : Option Ordering → CRes
   | some o => .ord o
   | none => .panic
 
+def PRes.isPanic {α : Type} : PRes α → Bool
+  | .panic => true
+  | _ => false
+
 def PRes.ofGo {α : Type} : Option α → PRes α
   | some v => .ok v
   | none => .panic
